@@ -276,6 +276,18 @@ ENSURES((vf_w_g >= idx && vf_w_g - idx < S_SIZE(sub)) ==> S_DATA(sub)[vf_w_g - i
 #undef SUB_PRE
 #endif
 
+#ifdef VF_G_sswap
+/* swap: the two string objects exchange storage, size and capacity; the characters stay where they are */
+#define S_SWAPPED(x, y) ((x)->v.elem.base == OLD((y)->v.elem.base) && (x)->v.elem.size == OLD((y)->v.elem.size) && \
+                         (x)->v.count == OLD((y)->v.count) && (x)->v.cap == OLD((y)->v.cap))
+static inline void SN(swap)(struct ST * const s1, struct ST * const s2)
+REQUIRES(FRESH(s1, sizeof(*s1)) && FRESH(s2, sizeof(*s2)))
+ASSIGNS(*s1, *s2)
+ENSURES(S_SWAPPED(s1, s2) && S_SWAPPED(s2, s1))
+;
+#undef S_SWAPPED
+#endif
+
 CH * SN(at)(struct ST * const s, const size_t i)
 REQUIRES(S_PRE(s))
 ASSIGNS(vf_aborted)
